@@ -16,6 +16,7 @@ CONSTANTS
   StepsFirst = TRUE
   Resources = {"at", "tcc"}
   MaxLoss = 2
+  MaxAnnFail = 0
   Bystanders = {FALSE, TRUE}
   Shifts = {0}
 SYMMETRY Sym
